@@ -488,3 +488,27 @@ Print Assumptions c08_shared_verifier_refuted.
 Example c08_current_code_dials_private : code_dials_share_verifier = false.
 Proof. exact eq_refl. Qed.
 Print Assumptions c08_current_code_dials_private.
+
+(* --- earlier connections -------------------------------------------------------- *)
+
+(* the identity check of a connection depends only on that connection's proven key
+   and announced identity, never on who connected to the router before *)
+Theorem c08_router_history_irrelevant : forall prior s c id,
+  router_accepts_h false prior s c id = router_accepts s c id.
+Proof. exact router_history_irrelevant. Qed.
+Print Assumptions c08_router_history_irrelevant.
+
+Theorem c08_router_history_irrelevant_proven : forall prior s c id,
+  router_accepts_h false prior s c id = true ->
+  exists k, key_of_cn s (c_cn c) = Some k /\ declared s c id = Some k.
+Proof. exact router_history_irrelevant_proven. Qed.
+Print Assumptions c08_router_history_irrelevant_proven.
+
+(* NOT /repo: a cache of decoded keys per announced identity *)
+Theorem c08_key_cache_refuted :
+  let c := honest_cert 2 0 in
+  router_accepts_h true [1] Ed25519 c (IdKey 1) = true /\
+  router_accepts_h false [1] Ed25519 c (IdKey 1) = false /\
+  key_of_cn Ed25519 (c_cn c) = Some 2.
+Proof. exact key_cache_refuted. Qed.
+Print Assumptions c08_key_cache_refuted.
